@@ -467,6 +467,19 @@ where
             break;
         }
     }
+    // the hint stays truthful while the walk proceeds
+    let mut it = mk();
+    for taken in 0..=n {
+        let (lo, hi) = it.size_hint();
+        let left = n - taken;
+        if lo > left || hi.map_or(false, |h| h < left) {
+            fails.push(format!("C17 iterator {label} ({fwd:?}): after {taken} items size_hint is ({lo}, {hi:?}) but {left} items remain"));
+            break;
+        }
+        if it.next().is_none() {
+            break;
+        }
+    }
 }
 
 /// C17, last clause: items of different storages are unequal and unordered, whatever their
@@ -722,6 +735,7 @@ impl Suite for Capture {
             roots: true,
             clones: true,
             rich_values: idx % 4 == 0,
+            leak_enters: false,
         };
         let mut prog = program::gen_program(rng, &gcfg);
         // nothing is tunnelled here, so non-finite floats and signed zeros are fair game
